@@ -261,6 +261,7 @@ class Ctx:
 
     def violation(self, what: str, replay: dict, no_input=False):
         path = self.replay_path(what + json.dumps(replay, sort_keys=True, default=str)[:2000])
+        replay = {(k if k not in ("property", "what") else k + "_"): v for k, v in replay.items()}     # never a reason not to report
         path.write_text(json.dumps(dict(property=self.id, what=what, **replay), indent=1, default=str, ensure_ascii=False))
         rel = os.path.relpath(path, VERIF)
         line = f"VIOLATION property={self.id} replay={rel}"
